@@ -102,3 +102,10 @@ package hdkeychain
 //@   attr trusted
 //@   modifies nothing
 //@   ensures key-or-error: err == nil ==> result0 != nil
+
+// SetNet switches this key to another network by replacing its version slice; the bytes of the old slice are shared with
+// other keys and with the network parameters and must not be written
+//@ func (*ExtendedKey).SetNet
+//@   requires k != nil && net != nil
+//@   modifies k.version
+//@   ensures version-of-the-network-for-this-kind-of-key: len(k.version) == 4
